@@ -50,6 +50,8 @@ def check(run):
         for nm in drivers.TO_FNS + drivers.ITER_FNS:
             claimed.add(('tea-core/src/vec_core/cores/view.rs', nm))
         backends.check_fast_paths(run, F)
+        from C07 import head_of
+        backends.check_writes(run, F, head_of)
         for fn in backends.vec1view_impl_fns(F):
             if fn.name in backends.ROLL:
                 claimed.add((fn.file, fn.name))
